@@ -70,8 +70,7 @@ class NDContainerAdapter(NDAdapter):
 
 
 def run_part(ctx, tier):
-    cfg = "MC_HistND_c02q" if tier == "quick" else "MC_HistND_c02t"
-    _res, g = ctx.model_check(cfg, required_actions=["Construct"])
+    _res, g = ctx.model_check("MC_HistND_c02q", required_actions=["Construct"])
     sub = only_actions(g, {"Construct"})
     for cont, pe, we in [("pd.DataFrame", "dyadic", "int"), ("pl.DataFrame", "ulp", "half"), ("pd.accessor", "decimal", "int"),
                          ("pd.h2", "dyadic", "half"), ("dask", "dyadic", "int")]:
